@@ -133,6 +133,7 @@ func runC04(c *Ctx) {
 	c.rule("N1", "every descent (list / recurse) on a path that can be a child is preceded by Lstat of that path with the is-link side not reaching the descent; listing-only functions pass the obligation to their call sites", 3)
 	c.rule("N2", "a successful return justified by a link-following Exists()==false is preceded by the Lstat link test on the same path", 2)
 	c.rule("N4", "entries matching an exclusion pattern survive: the pattern list is compiled in full (NewExclusionRegexList leaves its loops only at the end of the list or on an error)", 1)
+	c.rule("N5", "the Lstat link test of the removal functions is made on a cleaned path: Lstat of a path that ends with a separator resolves the link, so the caller's spelling must not reach it", 2)
 	c.rule("N3", "removal primitives in the removal call graph are afero.Fs.Remove and the privileged fallback only (no RemoveAll)", 2)
 
 	c.patternLoopsComplete("N4")
@@ -152,6 +153,8 @@ func runC04(c *Ctx) {
 	}
 	sortFuncs(fns)
 	c.Extra["removal_call_graph"] = len(fns)
+
+	c.c04LinkTestOnCleanPath(fns)
 
 	// functions whose own path parameter is only listed (obligation on callers)
 	isLister := func(f *ssa.Function) bool { return c04Descents[outermost(f).Name()] }
@@ -291,4 +294,112 @@ func runC04(c *Ctx) {
 	if prims == 0 {
 		c.fatalf("C04/N3: no removal primitive found in the removal call graph — anchor lost")
 	}
+}
+
+// c04LinkTestOnCleanPath (N5). lstat("tree/link/") follows the link (POSIX: a trailing separator forces resolution),
+// so a link test on the caller's own spelling of the path can be made blind. Inside the recursion paths come out of
+// filepath.Join, which cleans; the entry points must clean what they are given before the test.
+func (c *Ctx) c04LinkTestOnCleanPath(fns []*ssa.Function) {
+	for _, f := range fns {
+		allInstrs(f, func(in ssa.Instruction) {
+			cl, ok := in.(*ssa.Call)
+			if !ok {
+				return
+			}
+			name, args, ok := fsMethodCall(cl)
+			if !ok || name != "Lstat" || len(args) == 0 {
+				return
+			}
+			// only tests whose outcome decides about links
+			usedForLink := false
+			for _, ex := range *cl.Referrers() {
+				if e, ok := ex.(*ssa.Extract); ok && e.Index == 0 {
+					for _, r := range *e.Referrers() {
+						if rc, ok := r.(*ssa.Call); ok && (strings.HasSuffix(calleeFull(&rc.Call), "filesystem.IsSymLink") || (rc.Call.IsInvoke() && rc.Call.Method.Name() == "Mode")) {
+							usedForLink = true
+						}
+					}
+				}
+			}
+			if !usedForLink {
+				return
+			}
+			outer := outermost(f)
+			key := fname(outer) + "/link-test-path"
+			if c.c04Canonical(args[0], 3) {
+				c.ok("N5", key, c.ipos(cl), "the path tested is a cleaned path")
+			} else {
+				c.violate("N5", key, c.ipos(cl), "the link test is made on the path as the caller spelt it: with a trailing separator (\"tree/link/\") Lstat resolves the link, the test does not see a link, and the directory it points to — outside the tree — is cleaned")
+			}
+		})
+	}
+}
+
+// c04Canonical: v is the result of filepath.Clean/Join, or a parameter of an unexported function (or of a function
+// literal) all of whose package-local call sites pass such values.
+func (c *Ctx) c04Canonical(v ssa.Value, depth int) bool {
+	v = resolveValue(v)
+	if canonicalPath(v, 4) {
+		return true
+	}
+	if depth == 0 {
+		return false
+	}
+	if phi, isPhi := v.(*ssa.Phi); isPhi {
+		// a merge of cleaned values with the value itself on the edge where it is the empty string (nothing to clean)
+		for i, e := range phi.Edges {
+			if c.c04Canonical(e, depth-1) {
+				continue
+			}
+			pb := phi.Block().Preds[i]
+			okEmpty := false
+			if ifi, isIf := pb.Instrs[len(pb.Instrs)-1].(*ssa.If); isIf {
+				cond, ts := boolTest(ifi)
+				if b, isB := cond.(*ssa.BinOp); isB && (b.Op == token.NEQ || b.Op == token.EQL) {
+					sx, okx := constString(b.Y)
+					if okx && sx == "" && resolveValue(b.X) == resolveValue(e) {
+						emptySucc := ts // == "" true side
+						if b.Op == token.NEQ {
+							emptySucc = 1 - ts
+						}
+						if pb.Succs[emptySucc] == phi.Block() && pb.Succs[1-emptySucc] != phi.Block() {
+							okEmpty = true
+						}
+					}
+				}
+			}
+			if !okEmpty {
+				return false
+			}
+		}
+		return true
+	}
+	p, ok := v.(*ssa.Parameter)
+	if !ok {
+		return false
+	}
+	f := p.Parent()
+	if f.Object() != nil && f.Object().Exported() {
+		return false
+	}
+	idx := -1
+	for i, q := range f.Params {
+		if q == p {
+			idx = i
+		}
+	}
+	sites, all := 0, true
+	for _, g := range c.srcFuncs(fsPkgRel) {
+		allInstrs(g, func(in ssa.Instruction) {
+			cc := callCommon(in)
+			if cc == nil || staticCallee(cc) != f || idx >= len(cc.Args) {
+				return
+			}
+			sites++
+			if !c.c04Canonical(cc.Args[idx], depth-1) {
+				all = false
+			}
+		})
+	}
+	return sites > 0 && all
 }
